@@ -187,6 +187,8 @@ def replay(cs, scenario, graph, rec, modes=DEFAULT_MODES, foreign=True, max_stat
                             pyref.draw_for(a["prob"], luck, 0))
     for e in eids:
         rec.reset(e)
+    if extras:
+        rec.init_states(eids[0])
     if foreign and len(order) > 1:
         # final pass: the environments sit in the INITIAL state of a fresh episode while generative_step is given
         # the deepest stored states of earlier episodes (an implementation that keeps episode bookkeeping outside
